@@ -34,7 +34,7 @@ func checkC42(c *Ctx, r *Report) {
 		return
 	}
 	r.rule("C42.R1", "per mutate function: no clock / random / uuid / API-server / file / network input is reachable", 13)
-	r.rule("C42.R2", "per mutate function: map iteration order does not leak into rendered lists", 13)
+	r.rule("C42.R2", "per mutate function, and for the operator package as a whole: map iteration order does not leak into rendered lists", 14)
 	r.rule("C42.R3", "per mutate function: the object's own lists and counters are overwritten, never extended", 13)
 	r.rule("C42.R4", "per mutate function: no decision or value is taken from the object's previous state", 13)
 
@@ -74,6 +74,40 @@ func checkC42(c *Ctx, r *Report) {
 		return
 	}
 	r.Extra["mutate_functions"] = len(muts)
+	// R2 package-wide: values computed before the mutate function runs (resolved endpoints, derived
+	// names, merged snapshots) are captured by it, so a map-order leak anywhere in the operator package
+	// can reach a rendered object. Every range over a map in pkg/operator obeys the same loop rule.
+	{
+		var leaks []string
+		nRanges := 0
+		for _, fn0 := range m.FuncsInPkg(pkgOperator) {
+			for _, f := range withAnon(fn0) {
+				for _, b := range f.Blocks {
+					for _, in := range b.Instrs {
+						rg, ok := in.(*ssa.Range)
+						if !ok {
+							continue
+						}
+						if _, isMap := rg.X.Type().Underlying().(*types.Map); !isMap {
+							continue
+						}
+						nRanges++
+						if why := mapRangeLeak(m, f, rg); why != "" {
+							leaks = append(leaks, fmt.Sprintf("%s in %s: %s", m.Pos(rg.Pos()), f.Name(), why))
+						}
+					}
+				}
+			}
+		}
+		sort.Strings(leaks)
+		key := "no range over a map in pkg/operator lets iteration order reach a list or string"
+		r.Extra["map_ranges_in_operator_package"] = nRanges
+		if len(leaks) == 0 {
+			r.ok("C42.R2", key, "", fmt.Sprintf("%d map ranges inspected", nRanges))
+		} else {
+			r.viol("C42.R2", key, "", strings.Join(leaks, "; "))
+		}
+	}
 	for _, mu := range muts {
 		ri := reachFrom(m, []*ssa.Function{mu.closure})
 		for f := range ri {
